@@ -9,7 +9,7 @@ from fractions import Fraction as Fr
 import numpy as np
 from hypothesis import strategies as st
 
-from vf.common import Check, Violation, require
+from vf.common import Check, Violation, _in_repo_frames, require
 from vf.strategies import CRS_POOL, FA, SINU_PROJ
 
 RULE = (
@@ -283,7 +283,16 @@ def _run_both(case):
         kw_da["chunks"] = tuple(case["dst_chunks"])
     whole = xr_reproject(xx_np, dg, **kw)
     lazy = xr_reproject(xx_da, dg, **kw_da)
-    chunked = _compute(lazy, case["sched"])
+    try:
+        chunked = _compute(lazy, case["sched"])
+    except Exception as e:  # noqa: BLE001
+        if _in_repo_frames(e.__traceback__) is not None:
+            raise  # reported by the framework with the odc frame
+        # e.g. blocks whose shape contradicts the chunks the graph declares: fails in dask/xarray assembly
+        raise Violation(
+            "computing the chunked result failed outside odc code (blocks inconsistent with the declared graph?): %s: %s "
+            "(src chunks %r, dst chunks %r, nt %d)" % (type(e).__name__, str(e)[:200], case["src_chunks"], case["dst_chunks"], case["nt"])
+        ) from e
     return data, sg, dg, whole, lazy, chunked
 
 
@@ -349,7 +358,7 @@ def _check_fill(case, name, arr, out_mask, fill):
             )
 
 
-def _classify(case, T, out, n_chunks, npart, nempty):
+def _classify(case, T, out, n_chunks, npart, nempty, nt_rule="partial"):
     inside = out < -AMBIG
     if inside.all():
         T.cls("place:all_inside")
@@ -370,13 +379,16 @@ def _classify(case, T, out, n_chunks, npart, nempty):
     T.cls("src_chunks:" + ("irregular" if "x" in (sc[0][0], sc[1][0]) else "regular"))
     if nempty and nempty < n_chunks:
         T.cls("has_uncovered_and_covered_chunks")
-    if n_chunks >= 2 and npart >= 1:
+    if nt_rule == "partial" and n_chunks >= 2 and npart >= 1:
+        T.nontrivial()
+        T.cls("nontrivial")
+    if nt_rule == "disjoint" and n_chunks >= 2 and not inside.any():
         T.nontrivial()
         T.cls("nontrivial")
 
 
 # ----------------------------------------------------------------------------- oracles
-def o_same_crs(case, T):
+def o_same_crs(case, T, nt_rule="partial"):
     """Same CRS: identity for nearest at unambiguous pixels, fill clause, metadata."""
     if _backend_identity(case["src"]) or _backend_identity(case["dst"]):
         T.exclude("backend_identity_transform")
@@ -389,7 +401,7 @@ def o_same_crs(case, T):
     fill = _fill_value(case)
     w, c = whole.values, chunked.values
     n_chunks, npart, nempty = _partial_chunks(case, out)
-    _classify(case, T, out, n_chunks, npart, nempty)
+    _classify(case, T, out, n_chunks, npart, nempty, nt_rule)
     # fill clause, both results
     far = out >= 1.5
     _check_fill(case, "chunked", c, far, fill)
@@ -423,7 +435,7 @@ def o_same_crs(case, T):
             )
 
 
-def o_cross_crs(case, T):
+def o_cross_crs(case, T, nt_rule="partial"):
     """Different CRS: fill clause in both results, metadata, no exception; nearest: tolerant value check."""
     data, sg, dg, whole, lazy, chunked = _run_both(case)
     _check_meta(case, dg, whole, lazy, chunked)
@@ -436,7 +448,7 @@ def o_cross_crs(case, T):
     fill = _fill_value(case)
     w, c = whole.values, chunked.values
     n_chunks, npart, nempty = _partial_chunks(case, out)
-    _classify(case, T, out, n_chunks, npart, nempty)
+    _classify(case, T, out, n_chunks, npart, nempty, nt_rule)
     T.cls("pair:%s->%s" % (case["src"]["crs"], case["dst"]["crs"]))
     if case.get("far_apart"):
         # rasters are on different parts of the globe by construction: everything is fill
@@ -618,7 +630,7 @@ def _src_box(draw):
     return [ny, nx], S, label
 
 
-def _draw_lo(draw, place, L, W, frac_ok):
+def _draw_lo(draw, place, L, W, fracs):
     """Low end of the destination interval (length L) in source pixel units for a placement on one axis."""
     L = Fr(L)
     W = Fr(W)
@@ -629,7 +641,7 @@ def _draw_lo(draw, place, L, W, frac_ok):
             return None
         return Fr(draw(st.integers(a, b)))
 
-    fr = draw(st.sampled_from(FRACS)) if frac_ok else Fr(0)
+    fr = draw(st.sampled_from(fracs))
     if place == "contained":
         v = integer_in(0, W - L - fr)
         if v is not None:
@@ -669,27 +681,37 @@ PLACES = ["contained", "covers", "partial", "partial", "partial", "touching", "d
 
 
 def _scales_for(draw, klass):
-    """(|sx|, |sy|, signx, signy, fractional offsets allowed)"""
+    """(|sx|, |sy|, signx, signy, pool of fractional offsets).  Pools avoid offsets that make *every* pixel centre
+    sit on a source pixel edge (those cases are all-ambiguous for nearest neighbour), but keep a few of them."""
+    half, zero = Fr(1, 2), Fr(0)
+    rare = [Fr(4999995, 10**7)]  # within 1e-6 of a half: exercised, then excluded as ambiguous
     if klass == "shift_int":
-        return Fr(1), Fr(1), 1, 1, False
+        return Fr(1), Fr(1), 1, 1, [zero]
     if klass == "shift_sub":
-        return Fr(1), Fr(1), 1, 1, True
+        return Fr(1), Fr(1), 1, 1, [f for f in FRACS if f not in (zero, half)] * 3 + [half] + rare
     if klass == "scale_k":
-        k = Fr(draw(st.sampled_from([2, 3, 4, 5])))
-        return k, k, 1, 1, True
+        k = draw(st.sampled_from([2, 3, 4, 5]))
+        bad = zero if k % 2 == 0 else half
+        return Fr(k), Fr(k), 1, 1, [f for f in FRACS if f != bad] * 3 + [bad]
     if klass == "scale_inv_k":
         k = Fr(1, draw(st.sampled_from([2, 3, 4, 5, 8])))
-        return k, k, 1, 1, True
+        return k, k, 1, 1, FRACS
     fr = [Fr(3, 2), Fr(7, 10), Fr(23, 10), Fr(2, 3), Fr(9, 10), Fr(11, 10), Fr(5, 4), Fr(1, 3), Fr(17, 7)]
     if klass == "scale_frac":
         sx = draw(st.sampled_from(fr))
         sy = draw(st.one_of(st.just(sx), st.sampled_from(fr + [Fr(1), Fr(2)])))
-        return sx, sy, 1, 1, True
+        return sx, sy, 1, 1, FRACS
     mags = [Fr(1), Fr(1), Fr(2), Fr(1, 2), Fr(3, 2), Fr(1, 3)]
     m = draw(st.sampled_from(mags))
     sgx = -1 if klass in ("mirror_x", "mirror_xy") else 1
     sgy = -1 if klass in ("mirror_y", "mirror_xy") else 1
-    return m, m, sgx, sgy, draw(st.booleans())
+    if m == 1:
+        pool = [zero] * 4 + [f for f in FRACS if f not in (zero, half)]
+    elif m == 2:
+        pool = [f for f in FRACS if f != zero]
+    else:
+        pool = FRACS
+    return m, m, sgx, sgy, pool
 
 
 @st.composite
@@ -697,7 +719,7 @@ def s_same_linear(draw, resampling="nearest", places=None, klasses=None):
     src_shape, S, label = draw(_src_box())
     dst_shape = [draw(_side()), draw(_side())]
     klass = draw(st.sampled_from(klasses or KLASSES))
-    ax, ay, sgx, sgy, frac_ok = _scales_for(draw, klass)
+    ax, ay, sgx, sgy, fracs = _scales_for(draw, klass)
     place = draw(st.sampled_from(places or PLACES))
     H, W = src_shape
     h, w = dst_shape
@@ -713,8 +735,8 @@ def s_same_linear(draw, resampling="nearest", places=None, klasses=None):
     }[place]
     p_other = draw(st.sampled_from(other))
     px, py = (place, p_other) if first_x else (p_other, place)
-    lox, gotx = _draw_lo(draw, px, Lx, W, frac_ok)
-    loy, goty = _draw_lo(draw, py, Ly, H, frac_ok)
+    lox, gotx = _draw_lo(draw, px, Lx, W, fracs)
+    loy, goty = _draw_lo(draw, py, Ly, H, fracs)
     ox = lox if sgx > 0 else lox + Lx
     oy = loy if sgy > 0 else loy + Ly
     M = FA(ax * sgx, 0, ox, 0, ay * sgy, oy)
@@ -911,20 +933,20 @@ def _cross_grids(case):
     return case
 
 
-def o_cross(case, T):
+def o_cross(case, T, nt_rule="partial"):
     case = _cross_grids(dict(case))
     if _backend_identity(case["src"]) or _backend_identity(case["dst"]):
         T.exclude("backend_identity_transform")
         return
-    o_cross_crs(case, T)
+    o_cross_crs(case, T, nt_rule)
 
 
 def o_disjoint(case, T):
     """Destination rasters that do not overlap the source: all fill, no exception (both CRS situations)."""
     if "xsrc" in case:
-        o_cross(case, T)
+        o_cross(case, T, "disjoint")
     else:
-        o_same_crs(case, T)
+        o_same_crs(case, T, "disjoint")
 
 
 def o_fill_other(case, T):
@@ -945,17 +967,17 @@ def _is_d20(sub, case, msg):
 
 
 def build(chk: Check) -> None:
-    chk.sub("same_crs_nearest", o_same_crs, strategy=s_same_linear(), n={"quick": 320, "thorough": 20000},
+    chk.sub("same_crs_nearest", o_same_crs, strategy=s_same_linear(), n={"quick": 700, "thorough": 24000},
             budget_s={"quick": 60, "thorough": 800}, shrink=False)
-    chk.sub("same_crs_rotated", o_same_crs, strategy=s_same_rotated(), n={"quick": 80, "thorough": 5000},
+    chk.sub("same_crs_rotated", o_same_crs, strategy=s_same_rotated(), n={"quick": 200, "thorough": 8000},
             budget_s={"quick": 40, "thorough": 600}, shrink=False)
-    chk.sub("cross_crs_nearest", o_cross, strategy=s_cross(), n={"quick": 120, "thorough": 8000},
+    chk.sub("cross_crs_nearest", o_cross, strategy=s_cross(), n={"quick": 300, "thorough": 10000},
             budget_s={"quick": 50, "thorough": 800}, shrink=False)
     chk.sub("fill_bilinear", o_fill_other,
             strategy=st.one_of(s_same_linear(resampling="bilinear"), s_same_linear(resampling="bilinear"), s_cross(resampling="bilinear")),
-            n={"quick": 100, "thorough": 5000}, budget_s={"quick": 40, "thorough": 600}, shrink=False)
+            n={"quick": 200, "thorough": 6000}, budget_s={"quick": 40, "thorough": 600}, shrink=False)
     chk.sub("disjoint_all_fill", o_disjoint,
             strategy=st.one_of(s_same_linear(places=["disjoint"]), s_same_linear(places=["disjoint", "touching"], klasses=["scale_k", "mirror_xy", "shift_int"]),
                                s_cross(far_apart=True)),
-            n={"quick": 80, "thorough": 4000}, budget_s={"quick": 40, "thorough": 600}, shrink=False)
+            n={"quick": 150, "thorough": 5000}, budget_s={"quick": 40, "thorough": 600}, shrink=False)
     chk.known("D20", _is_d20)
